@@ -12,6 +12,9 @@ def setup(J):
                      "args": {"names": "p", "tier": tier, "vals": "<|>"}})
         jobs.append({"id": "C14-values-blank-vs-plus", "prop": "C14", "kind": "c14", "mode": "single", "budget": 600, "oracles": [], "events_dep": False,
                      "args": {"names": "p", "tier": tier, "vals": "a b|a+b"}})
+        # tasks that differ only in a STREAMED input (real FIFOs, see C17): two producer/consumer pairs in flight at once
+        jobs.append({"id": "C14-two-streamed-inputs-in-flight", "prop": "C14", "kind": "stream", "mode": "delay", "delay": 1, "budget": J.budget(tier, 30, 200), "oracles": [], "events_dep": False, "force_all": -1,
+                     "args": {"n": "2", "size": "1", "max": "4", "only_classes": "unexpected-outcome,hang,wrong-bytes,missing-output,tempdir-left"}})
         return {"level": "exploration", "stages": [lambda ctx, prev: jobs],
                 "rule": "exhaustive enumeration of task identities over a small alphabet (process names, also with blanks, capitals and slashes, x 0-2 in-ports with paths incl. a/b vs ab x 0-2 parameters x 0-2 tags (values also outside the path alphabet: '<' vs '>', 'a b' vs 'a+b') x sub-stream member lists of length 0-2), each built with the public constructor NewTask; ALL pairs compared by grouping on TempDir(); + names of every length 180..262; + same identity under every other map-iteration order; distinct_nontrivial = number of distinct temp-dir values",
                 "assumptions": ["identities outside the alphabet are not covered (no sampling of 'random long' values: outside the technique)", "collisions are classified 'concat-ambiguity' when the two identities' pieces written without separators coincide (the known defect) and 'other' otherwise"],
